@@ -115,6 +115,21 @@ func features(schema any) map[string]bool {
 					f["default+addl"] = true
 				}
 			}
+			for _, ck := range []string{"anyOf", "allOf"} {
+				if bs, ok := x[ck].([]any); ok {
+					for _, b := range bs {
+						bm, _ := b.(map[string]any)
+						bt := typeNames(bm["type"])
+						_, isRef := bm["$ref"]
+						if !isRef && !(len(bt) == 1 && bt[0] == "object") {
+							f[strings.ToLower(ck)+"-non-object-branch"] = true
+						}
+						if ap, ok := bm["additionalProperties"]; ok && ap != false {
+							f[strings.ToLower(ck)+"-branch-typed-addl"] = true
+						}
+					}
+				}
+			}
 			for _, k := range space.SortedKeys(x) {
 				switch k {
 				case "properties", "$defs", "definitions", "patternProperties", "dependentSchemas":
@@ -235,7 +250,9 @@ var c01Rules = []genRule{
 	{"DEFAULT_MIXED_ENUM_LITERAL", regexp.MustCompile(`cannot use .* \(untyped \w+ constant.*\) as \w+ value in assignment`), "default+wrapped-enum"},
 	{"NOOP_NUMERIC_UNUSED_FMT", regexp.MustCompile(`"fmt" imported and not used`), "noop-numeric"},
 	{"UNTYPED_ADDL_MISSING_IMPORTS", regexp.MustCompile(`undefined: (reflect|strings|mapstructure)`), "props+untyped-addl"},
-	{"ENUM_CONST_COLLISION", regexp.MustCompile(`\w+ redeclared in this block`), "enum-const-collision"},
+	{"ENUM_CONST_COLLISION", regexp.MustCompile(`(\w+ redeclared in this block|other declaration of \w+)`), "enum-const-collision"},
+	{"ANYOF_BRANCH_TYPED_ADDL_MISSING_IMPORTS", regexp.MustCompile(`undefined: (reflect|strings|mapstructure)`), "anyof-branch-typed-addl"},
+	{"ANYOF_NON_OBJECT_BRANCH_UNDEFINED", regexp.MustCompile(`undefined: \w+_\d+`), "anyof-non-object-branch"},
 	{"DESCRIPTION_BUILD_CONSTRAINT", regexp.MustCompile(`^not gofmt-stable$`), "description-build-line"},
 	{"NUL_IN_TEXT", regexp.MustCompile(`illegal character NUL`), "nul-in-text"},
 	{"RECURSIVE_REQUIRED_NOT_POINTER", regexp.MustCompile(`invalid recursive type`), "required-self-ref"},
